@@ -74,6 +74,14 @@ func genLines(t *rapid.T, v6 bool, allowBad bool, min int) []Line {
 			ls = append(ls, Line{Kind: "comment", Text: rapid.SampledFrom([]string{"", " a comment", "02:00:00:00:00:01 10.0.0.1", "#", "\tx"}).Draw(t, "comment")})
 		case 1:
 			ls = append(ls, Line{Kind: "empty"})
+		case 2, 3:
+			// an earlier line once more, character for character (generated files repeat themselves;
+			// with another line for the same client in between, the repeat is the last occurrence)
+			if len(ls) > 0 {
+				ls = append(ls, ls[rapid.IntRange(0, len(ls)-1).Draw(t, "again")])
+			} else {
+				ls = append(ls, genEntry(t, v6, pool))
+			}
 		default:
 			ls = append(ls, genEntry(t, v6, pool))
 		}
